@@ -202,9 +202,10 @@ def run(cx):
                 opq["subprocess.check_call"] = boom
                 opq["subprocess.call"] = boom
             outs = []
+            mstate = {}      # what the module keeps between the calls of this history
             try:
                 for _i in range(ncalls):
-                    outs.append(dl.Interp(mp, opaque=opq, extra_env={"sys": _SysStub(), "subprocess": _sub_for(opq)}).call(ep, []))
+                    outs.append(dl.Interp(mp, opaque=opq, extra_env={"sys": _SysStub(), "subprocess": _sub_for(opq)}, module_state=mstate).call(ep, []))
             except dl.Unsupported as e:
                 raise AnalysisError(f"ensure_pio left the evaluable subset: {e}")
             healthy = exc is None and statuses == (0,)
